@@ -179,6 +179,10 @@ def gen_tab_cases(tier, seed, salt=40, n_trees=None, n_texts=None, max_rows=256)
     for i in range(n_texts):
         if i % 4 == 3:
             parts = TX.priv_stmt(tg)          # suffix-linked private properties (single values, combinations, nested statements)
+        elif i % 8 == 2:
+            parts = TX.groups_stmt(tg, rng)   # several combination groups side by side inside one component
+        elif i % 8 == 5:
+            parts = TX.pairs_shared_stmt(tg, rng)   # pair combination + component of the same type outside the braces
         else:
             parts = tg.stmt(rng.choice([0, 0, 1, 1, 2, 3]), maxleaves=3)
         cases.append({"stream": "P", "parts": parts, "text": TX.r_stmt(parts), "opt": rnd_opt(rng), "id": rng.choice([b"7", b"123", b"a.1", b"1.1"]),
@@ -297,6 +301,7 @@ def run_tab_cases(build, cases, V, want_spec=True):
                 js = json.loads(l[3:])
                 js["choices"] = [[(unhex(a), None if v is None else unhex(v)) for a, v in row] for row in js["choices"]]
                 js["links"] = [[(unhex(a), tuple(o.split()), rs) for a, o, rs in row] for row in js["links"]]
+                js["cores"] = [[None if v is None else unhex(v) for v in row] for row in js.get("cores", [])]
                 c["spec"][j] = js
     return mism
 
